@@ -42,6 +42,7 @@ struct Ev {
 struct T {
     bool registered{false}, finished{false}, detached{false}, parked{false}, spinning{false}, bg{false};
     std::uint64_t steps{0};
+    std::uint64_t streak{0};                 // consecutive picks under PCT (fairness guard)
     long prio{0};                            // PCT priority (higher runs first)
     std::uint64_t stalled_until{0};          // not schedulable while the global epoch is below this
     std::chrono::steady_clock::time_point stall_deadline{};   // ... but at most until this instant
@@ -79,6 +80,10 @@ static std::uint64_t est_len = 400;                 // pct: expected run length 
 static std::uint64_t step_no = 0, spin_streak = 0, max_steps = 4000000;
 static bool stuck = false;
 static std::vector<Ev> trace;
+// successful compare-exchanges on version words: (thread, object, replaced word, installed word)
+struct VT { int tid; const void* obj; std::uint64_t oldw, neww; };
+static std::vector<VT> vtrans;
+static thread_local std::uint64_t pre_word = 0;
 static bool keep_trace = false;
 static int n_workers = 0;
 static thread_local int my_tid = -1;
@@ -92,11 +97,15 @@ static std::uint64_t rnd() {
 
 // caller holds mu. Returns the next thread to run, or -1 if nobody can.
 static int choose(int me) {
-    if (replay_mode) {
-        if (replay_pos >= replay.size()) { replay_infeasible = true; return me; }
-        int want = replay[replay_pos];
-        // wait for the wanted thread to be available
-        return want; // availability is awaited by the caller
+    if (replay_mode && !replay_infeasible) {
+        if (replay_pos < replay.size()) {
+            int want = replay[replay_pos];
+            // wait for the wanted thread to be available
+            return want; // availability is awaited by the caller
+        }
+        // the recorded schedule is used up although threads are still running (the code under
+        // test changed since it was recorded): continue under the seeded random policy
+        replay_infeasible = true;
     }
     std::vector<int> cand, calm;
     for (int i = 0; i < static_cast<int>(th.size()); ++i) {
@@ -114,10 +123,15 @@ static int choose(int me) {
         if (me >= 0 && me < static_cast<int>(th.size())) {
             bool demote = th[me].spinning;
             for (auto cp : change_points) if (cp == step_no) demote = true;
+            // fairness: an optimistic reader that keeps retrying (retry-from-root loops are not
+            // announced as spins) waits for a writer to finish; the properties quantify over fair
+            // schedules only, so a thread that ran very long without a switch gives way
+            if (++th[me].streak > 20000 && cand.size() > 1) { demote = true; th[me].streak = 0; }
             if (demote) th[me].prio = --low_prio;
         }
         int best = cand[0];
         for (int c : cand) if (th[c].prio > th[best].prio) best = c;
+        if (best != me && me >= 0 && me < static_cast<int>(th.size())) th[me].streak = 0;
         return best;
     }
     if (policy == 1 && me >= 0 && !th[me].finished && !th[me].detached && !th[me].spinning && !stalled(th[me]) && (rnd() % 10) < 7) return me;
@@ -190,7 +204,10 @@ static void hook(int kind, const void* obj, int field, std::uint64_t val) {
     if (!is_yield) {
         if (keep_trace) {
             // a successful CAS on a version word: record the word it produced
-            if (kind == k_cas_ok && field == f_version && obj != nullptr) std::memcpy(&val, obj, 8);
+            if (kind == k_cas_ok && field == f_version && obj != nullptr) {
+                std::memcpy(&val, obj, 8);
+                vtrans.push_back({my_tid, obj, pre_word, val});
+            }
             trace.push_back({step_no, my_tid, kind, field, obj, val});
         }
         return;
@@ -231,6 +248,9 @@ static void hook(int kind, const void* obj, int field, std::uint64_t val) {
     if (!active.load()) return;
     ++step_no;
     ++me.steps;
+    // nobody else runs between this point and the access itself: for a compare-exchange on a
+    // version word this is the word it will replace if it succeeds
+    if (kind == k_cas && field == f_version && obj != nullptr) std::memcpy(&pre_word, obj, 8);
     if (keep_trace) trace.push_back({step_no, my_tid, kind, field, obj, val});
 }
 
@@ -299,6 +319,13 @@ static std::string vw(node_version64_body b) {
     return buf;
 }
 
+// raw version-object workloads (C17): one shared node_version64 used through its public operations
+static node_version64 g_rawver;
+static std::uint64_t g_rawinit = 0;
+static bool g_raw = false;
+static std::atomic<int> g_cs_owner{-1};
+static std::vector<std::string> g_raw_lines;
+static std::mutex g_raw_mu;
 static std::string g_storage;
 static std::vector<std::vector<std::string>> g_pre;
 static std::vector<std::vector<Op>> g_threads;
@@ -443,6 +470,37 @@ static void worker(int tid, std::vector<Rec>* recs, std::vector<NvRec>* nvs, Tok
             }
             YK_VERIF(k_spin, nullptr, f_generic, 0);
             o << "slept";
+        } else if (op == "vcs") {
+            // critical section: lock, flag what the "writer" did, unlock
+            const std::string flags = w.size() > 1 ? w[1] : "";
+            g_rawver.lock();
+            int prev = g_cs_owner.exchange(tid);
+            bool mutex_ok = prev == -1;
+            for (char c : flags) {
+                if (c == 'i') g_rawver.atomic_set_inserting_deleting(true);
+                else if (c == 's') g_rawver.atomic_set_splitting(true);
+                else if (c == 'd') g_rawver.atomic_set_deleted(true);
+                else if (c == 'D') g_rawver.atomic_set_deleted(false);
+                else if (c == 'n') g_rawver.atomic_inc_vinsert();
+            }
+            if (g_cs_owner.load() != tid) mutex_ok = false;
+            g_cs_owner.store(-1);
+            g_rawver.unlock();
+            o << (mutex_ok ? "cs" : "cs MUTEX");
+        } else if (op == "vstable") {
+            auto b = g_rawver.get_stable_version();
+            o << "stable " << vw(b);
+            std::lock_guard<std::mutex> g(g_raw_mu);
+            g_raw_lines.push_back("S " + std::to_string(tid) + " raw " + vw(b));
+        } else if (op == "vroot") {
+            g_rawver.atomic_set_root(w[1] == "1");
+            o << "set";
+        } else if (op == "vborder") {
+            g_rawver.atomic_set_border(w[1] == "1");
+            o << "set";
+        } else if (op == "vinc") {
+            g_rawver.atomic_inc_vinsert();
+            o << "set";
         } else if (op == "hold") {
             // re-read everything handed out so far in this session: contents must be unchanged
             std::size_t bad = 0;
@@ -480,6 +538,7 @@ int main(int argc, char** argv) {
         if (w[0] == "storage") vh::unhex(w[1], g_storage);
         else if (w[0] == "bg") sched::want_bg = w[1] == "1";
         else if (w[0] == "auto_session") g_auto_session = w[1] == "1";
+        else if (w[0] == "rawver") { g_raw = true; g_rawinit = std::strtoull(w[1].c_str(), nullptr, 16); }
         else if (w[0] == "pre") g_pre.push_back(std::vector<std::string>(w.begin() + 1, w.end()));
         else if (w[0] == "thread") { cur = std::atoi(w[1].c_str()); if (static_cast<int>(g_threads.size()) <= cur) g_threads.resize(cur + 1); }
         else if (w[0] == "op" && cur >= 0) g_threads[cur].push_back(Op{std::vector<std::string>(w.begin() + 1, w.end())});
@@ -520,12 +579,19 @@ int main(int argc, char** argv) {
             }
             leave(t);
         }
+        if (g_raw) {
+            node_version64_body b0{};
+            std::memcpy(&b0, &g_rawinit, 8);
+            g_rawver.set_body(b0);
+            g_cs_owner.store(-1);
+        }
         const int nw = static_cast<int>(g_threads.size());
         sched::n_workers = nw;
         sched::th.clear();
         sched::th.resize(nw + 2);   // two more slots for the library's epoch and gc threads
         sched::schedule.clear();
         sched::trace.clear();
+        sched::vtrans.clear();
         sched::replay = replay_sched;
         sched::replay_pos = 0;
         sched::replay_mode = !replay_sched.empty();
@@ -601,6 +667,11 @@ int main(int argc, char** argv) {
                 ti->root_unlock();
             }
         }
+        if (g_raw) {
+            node_version64_body b0{};
+            std::memcpy(&b0, &g_rawinit, 8);
+            std::cout << "VFINAL " << vw(b0) << " " << vw(g_rawver.get_body()) << "\n";
+        }
         std::cout << "SCHED";
         for (int x : sched::schedule) std::cout << " " << x;
         std::cout << "\n";
@@ -613,6 +684,16 @@ int main(int argc, char** argv) {
                 std::cout << "T " << e.step << " " << e.tid << " " << e.kind << " " << e.field << " " << slot << " " << e.obj << " " << e.val << "\n";
             }
         }
+        if (sched::keep_trace) {
+            char b1[20], b2[20];
+            for (auto& v : sched::vtrans) {
+                std::snprintf(b1, sizeof b1, "%016llx", static_cast<unsigned long long>(v.oldw));
+                std::snprintf(b2, sizeof b2, "%016llx", static_cast<unsigned long long>(v.neww));
+                std::cout << "V " << v.tid << " " << v.obj << " " << b1 << " " << b2 << "\n";
+            }
+        }
+        for (auto& l : g_raw_lines) std::cout << l << "\n";
+        g_raw_lines.clear();
         for (int i = 0; i < nw; ++i) if (toks[i] != nullptr) leave(toks[i]);
         fin();
         std::cout << "LEDGER live " << vh::ledger().n_aligned << " errs " << vh::ledger().errors
